@@ -70,31 +70,38 @@ Outcome guarded(F &&f) {
   Outcome o;
   try {
     f();
-  } catch (const LivenessAbort &) {
-    o.kind = 2;
-    o.type = "LivenessAbort";
-  } catch (const std::bad_alloc &e) {
-    o.kind = 1;
-    o.type = "bad_alloc";
-  } catch (const std::runtime_error &e) {
-    o.kind = 1;
-    o.type = "runtime_error";
-    o.what = e.what();
-  } catch (const std::logic_error &e) {
-    o.kind = 1;
-    o.type = "logic_error";
-    o.what = e.what();
-  } catch (const std::exception &e) {
-    o.kind = 1;
-    o.type = "exception";
-    o.what = e.what();
-  } catch (int v) {
-    o.kind = 2;
-    o.type = "int";
-    o.what = std::to_string(v);
   } catch (...) {
-    o.kind = 2;
-    o.type = "unknown";
+    // from here on we are in harness code again: injected allocation failures
+    // are for the library only (the handler below allocates strings)
+    allocLibraryMode(false);
+    try {
+      throw;
+    } catch (const LivenessAbort &) {
+      o.kind = 2;
+      o.type = "LivenessAbort";
+    } catch (const std::bad_alloc &) {
+      o.kind = 1;
+      o.type = "bad_alloc";
+    } catch (const std::runtime_error &e) {
+      o.kind = 1;
+      o.type = "runtime_error";
+      o.what = e.what();
+    } catch (const std::logic_error &e) {
+      o.kind = 1;
+      o.type = "logic_error";
+      o.what = e.what();
+    } catch (const std::exception &e) {
+      o.kind = 1;
+      o.type = "exception";
+      o.what = e.what();
+    } catch (int v) {
+      o.kind = 2;
+      o.type = "int";
+      o.what = std::to_string(v);
+    } catch (...) {
+      o.kind = 2;
+      o.type = "unknown";
+    }
   }
   return o;
 }
@@ -252,6 +259,7 @@ CircuitExec::StageRun CircuitExec::runStage(Circuit &c, int opIndex, const Op &o
     for (int i = 0; i < r.pre.n(); ++i)
       if (!r.pre.fixed[i] && r.pre.w[i] > 0 && r.pre.h[i] > 0) positive = true;
     mk->dom07 = (dom.magnitudeOk && !r.pre.rows.empty() && fsPre.rowHeight > 0 && positive && !r.paramsRejected && moderate) ? 1 : 0;
+    mk->dom06 = (dom.c06 && !r.paramsRejected && moderate) ? 1 : 0;
   }
   float blendF = (float)params.global.exportBlending;
 
